@@ -92,7 +92,9 @@ def _replay_for(lines, idx):
 
 
 def _run_text(hbin, args):
-    rc, out = vlib.sh([hbin] + args, env=vlib.ASAN_ENV, timeout=1500)
+    # a normal run takes seconds; a run that does not finish (rc 124) is reported by _examine as an abort with the last lines
+    # of the output as replay: a loop of the real code that never ends (e.g. a doubling loop that stopped making progress)
+    rc, out = vlib.sh([hbin] + args, env=vlib.ASAN_ENV, timeout=300)
     return rc, out
 
 
@@ -141,7 +143,7 @@ def _examine(ck, prop, label, rc, out, info, ps):
             prop, label, l, "\n".join(ops)),
             "property fails on the real code (integer arithmetic / constructor, harness h3_math, %d oracle hits): %s" % (len(fresh), l[:300]))
     elif rc not in (0, 3):
-        ck.violation("math_abort", "# h3_math %s\n# harness aborted rc=%d (sanitizer / crash in the real code)\n# %s\n" % (
+        ck.violation("math_abort", "# h3_math %s\n# harness aborted rc=%d (sanitizer / crash in the real code; rc 124 = did not finish within 300 s)\n# %s\n" % (
             label, rc, out[-3000:].replace("\n", "\n# ")),
             "the real code aborted in harness h3_math (%s, rc=%d): %s" % (label, rc, out.strip().split("\n")[-1][:200]))
     elif mm or rcd not in (0, 1) or not done:
